@@ -45,6 +45,9 @@ type C03Case struct {
 	// Stream (connectfunc route): "tcp" hands the proxy the TCP connection itself, "eofdata" a stream whose
 	// Read returns the final bytes together with io.EOF whenever end-of-stream is already known.
 	Stream string `json:"stream,omitempty"`
+	// TargetReadDelayMs: the target starts reading only after this long (a slow consumer): bytes the proxy has already
+	// written - and possibly both half-closes - are then still on their way when the proxy lets go of the connection.
+	TargetReadDelayMs int `json:"target_read_delay_ms,omitempty"`
 }
 
 var tunSizes = []int{1, 2, 100, 1000, 4095, 4096, 4097, 16384, 32767, 32768, 32769, 65536, 100000}
@@ -82,6 +85,9 @@ func genC03(t *rapid.T) C03Case {
 	c.Close = rapid.SampledFrom([]string{"client-first", "target-first", "simultaneous", "client-close"}).Draw(t, "close")
 	if c.Close == "client-close" {
 		c.Target.After = nil // the client closes the socket completely once it has everything
+	}
+	if rapid.IntRange(0, 39).Draw(t, "slowtarget") == 23 {
+		c.TargetReadDelayMs = 60
 	}
 	if c.Route == "connectfunc" {
 		c.Stream = rapid.SampledFrom([]string{"tcp", "eofdata"}).Draw(t, "stream")
@@ -500,6 +506,9 @@ func runC03once(c C03Case) []vstat.Failure {
 		wg.Add(1)
 		go func() { // reader
 			defer wg.Done()
+			if c.TargetReadDelayMs > 0 {
+				time.Sleep(time.Duration(c.TargetReadDelayMs) * time.Millisecond)
+			}
 			n, bad, err := readVerify(rd, cid, 0, &run.tRecv, func() { run.targetEOF.Store(true); close(sawEOF) })
 			if bad >= 0 {
 				run.fail("client-to-target-corrupt", "target: byte %d of the client's stream differs", bad)
@@ -714,6 +723,9 @@ func classifyC03(c C03Case) (bool, string, []string) {
 	}
 	if c.Stream != "" {
 		cls = append(cls, "stream-"+c.Stream)
+	}
+	if c.TargetReadDelayMs > 0 {
+		cls = append(cls, "slow-reading-target")
 	}
 	if c.Client.Early > 0 {
 		cls = append(cls, "client-early-data")
